@@ -540,4 +540,33 @@ def unpack (T : Tree) (S : List Sel) (pkgInfoText : String) : Tree :=
   T.filter (fun e => S.any (fun s => (stripBase e.path s.arc).isSome && (e.isDir || e.path == s.arc)))
     ++ [{ path := [Gen.sdistPkgInfoName], isDir := false, content := pkgInfoText }]
 
+/-! ## decidable boundary of `wheel built from the unpacked sdist = wheel built from the tree` (C09) -/
+
+/-- decidable on the package list: no package is relocated (`from` / `to`) -/
+def plainPkgs (pkgs : List PkgSpec) : Bool := pkgs.all fun s => s.source.isNone && s.target.isNone
+
+/-- decidable: the wheel is fed by one package rule only (no second package, no wheel-format include) -/
+def singleRule (pkgs : List PkgSpec) (cfg : Cfg) : Bool :=
+  pkgs.length ≤ 1 && (cfg.includes.filter fun i => i.formats.contains Fmt.wheel.name).isEmpty
+
+/-- decidable: archive names cannot be ambiguous -/
+def arcSafe (pkgs : List PkgSpec) (cfg : Cfg) : Bool := plainPkgs pkgs || singleRule pkgs cfg
+
+/-- decidable on one glob rule: it can neither match a root-level file called PKG-INFO nor take the whole base -/
+def avoidsPkgInfo (base : Path) (pat : Pattern) : Bool :=
+  (match stripBase base [Gen.sdistPkgInfoName] with
+   | some rel => !globMatch pat rel false
+   | none => true) &&
+  !(base.isEmpty && globMatch pat [] true)
+
+def specAvoidsPkgInfo (base : Path) (text : String) : Bool :=
+  match parsePattern text with
+  | .ok pat => avoidsPkgInfo base pat
+  | .error _ => true
+
+/-- decidable on the configuration: no wheel rule reaches the generated PKG-INFO -/
+def pkgInfoUnreached (pkgs : List PkgSpec) (cfg : Cfg) : Bool :=
+  (pkgs.all fun s => specAvoidsPkgInfo (match s.source with | some x => parseRel x | none => []) s.incl) &&
+  ((cfg.includes.filter fun i => i.formats.contains Fmt.wheel.name).all fun i => specAvoidsPkgInfo [] i.path)
+
 end Poetry.Select
